@@ -29,6 +29,30 @@ CIG = "5=1X4="
 TAGS = [("tp:A:", "P"), ("cg:Z:", CIG), ("NM:i:", "1")]
 
 
+# external segment names (the ids above are internal): one plain, the others with characters outside [A-Za-z0-9_], two of them
+# extending the name of another segment.  No ':' - a ':' in the path column is how gaftools tells stable from unstable paths.
+EXT = {"a0": "s1-alt", "a1": "s1.2", "b0": "b#0|x"}
+
+
+def nm(n):
+    return EXT.get(n, n)
+
+
+def rname(i):
+    """read names: every second one carries a GraphAligner style comment after a blank"""
+    return "r%d" % i if i % 2 == 0 else "r%d runid=7 ch=%d" % (i, i)
+
+
+def cut_name(line):
+    """the documented exception: the read name is cut at its first blank when a record is parsed and printed again"""
+    f = line.split("\t")
+    return "\t".join([f[0].split(" ")[0]] + f[1:])
+
+
+def ptext(w):
+    return "".join(o + nm(n) for o, n in parse_walk(w))
+
+
 GFA_ORDER = [None]  # S-line order of the model graph (None = SO order within each contig)
 
 
@@ -36,9 +60,9 @@ def gfa_lines(order=None):
     out = []
     for nid in (order or GFA_ORDER[0] or list(LAY)):
         sn, so, ln, sr = LAY[nid]
-        out.append("S\t%s\t*\tLN:i:%d\tSN:Z:%s\tSO:i:%d\tSR:i:%d\n" % (nid, ln, sn, so, sr))
+        out.append("S\t%s\t*\tLN:i:%d\tSN:Z:%s\tSO:i:%d\tSR:i:%d\n" % (nm(nid), ln, sn, so, sr))
     for u, du, v, dv in LINKS:
-        out.append("L\t%s\t%s\t%s\t%s\t0M\n" % (u, du, v, dv))
+        out.append("L\t%s\t%s\t%s\t%s\t0M\n" % (nm(u), du, nm(v), dv))
     return out
 
 
@@ -70,7 +94,7 @@ def stable_of(walk, merged=True):
 
 def record_line(i, path, plen, ps, pe, strand="+"):
     tags = "".join("\t" + k + v for k, v in TAGS)
-    return rt.vp_fmt_("r%d\t50\t0\t10\t%s\t%s\t%d\t%d\t%d\t9\t10\t60" + tags + "\n", (i, strand, path, plen, ps, pe))
+    return rt.vp_fmt_("%s\t50\t0\t10\t%s\t%s\t%d\t%d\t%d\t9\t10\t60" + tags + "\n", (rname(i), strand, path, plen, ps, pe))
 
 
 def record_alignment(i, path, plen, ps, pe, strand="+"):
@@ -84,7 +108,7 @@ def records_for(form, walks, nums):
     for w, (ps, pe) in zip(walks, nums):
         if form == "unstable":
             walk = parse_walk(w)
-            out.append((w, walk_len(walk), ps, pe, [n for _, n in walk]))
+            out.append((ptext(w), walk_len(walk), ps, pe, [n for _, n in walk]))
         elif form in ("stable", "stable-unmerged"):
             walk = parse_walk(w)
             out.append((stable_of(walk, merged=(form == "stable")), walk_len(walk), ps, pe, [n for _, n in walk]))
@@ -136,7 +160,7 @@ def check_index(idx, recs, cookies):
         for n in expected_nodes(r):
             exp.setdefault(n, []).append(i)
     for n, (sn, so, ln, sr) in LAY.items():
-        key = (n, sn, so, so + ln)
+        key = (nm(n), sn, so, so + ln)
         if n not in exp:
             if key in idx:
                 return "node %s has an index entry but no record traverses it" % n
@@ -151,7 +175,8 @@ def check_index(idx, recs, cookies):
         for w in want:
             if not any(c == w for c in got):
                 return "entry of %s misses the offset of a record that traverses it" % n
-    extra = [k for k in idx.keys() if k != "ref_contig" and (not isinstance(k, tuple) or k[0] not in LAY or k != (k[0], LAY[k[0]][0], LAY[k[0]][1], LAY[k[0]][1] + LAY[k[0]][2]))]
+    good = {(nm(n), sn, so, so + ln) for n, (sn, so, ln, sr) in LAY.items()}
+    extra = [k for k in idx.keys() if k != "ref_contig" and (not isinstance(k, tuple) or k not in good)]
     if extra:
         return "unexpected index keys %r" % (extra,)
     return None
@@ -169,7 +194,7 @@ def write_real(wd, recs, gz=False):
     lines = []
     for i, r in enumerate(recs):
         tags = "".join("\t" + k + v for k, v in TAGS)
-        lines.append("r%d\t50\t0\t10\t+\t%s\t%d\t%d\t%d\t9\t10\t60%s" % (i, r[0], r[1], r[2], r[3], tags))
+        lines.append("%s\t50\t0\t10\t+\t%s\t%d\t%d\t%d\t9\t10\t60%s" % (rname(i), r[0], r[1], r[2], r[3], tags))
     gaf = os.path.join(wd, "in.gaf")
     open(gaf, "w").write("".join(l + "\n" for l in lines))
     if gz:
@@ -210,7 +235,7 @@ def big_bgzf_index(wd, recs, rep=1500):
     with open(gaf, "w") as fh:
         for j in range(rep):
             for i, r in enumerate(recs):
-                fh.write("r%dx%d\t50\t0\t10\t+\t%s\t%d\t%d\t%d\t9\t10\t60%s\tzz:Z:%s\n" % (i, j, r[0], r[1], r[2], r[3], tags, "pad" * 10))
+                fh.write("r%dx%d comment\t50\t0\t10\t+\t%s\t%d\t%d\t%d\t9\t10\t60%s\tzz:Z:%s\n" % (i, j, r[0], r[1], r[2], r[3], tags, "pad" * 10))
     pysam.tabix_compress(gaf, gaf + ".gz", force=True)
     out = os.path.join(wd, "big.gvi")
     try:
@@ -222,7 +247,7 @@ def big_bgzf_index(wd, recs, rep=1500):
     expected = {}
     for i, r in enumerate(recs):
         for n in expected_nodes(r):
-            expected.setdefault(n, set()).add(i)
+            expected.setdefault(nm(n), set()).add(i)
     for k, offs in idx.items():
         if k == "ref_contig":
             continue
@@ -233,7 +258,7 @@ def big_bgzf_index(wd, recs, rep=1500):
                 line = fh.readline().decode()
             except Exception as e:
                 return "offset %r listed for node %s cannot be resolved in the multi-block BGZF file: %r" % (o, k[0], e)
-            name = line.split("\t")[0]
+            name = line.split("\t")[0].split(" ")[0]
             if not (name.startswith("r") and "x" in name):
                 return "offset %r listed for node %s does not point at the start of a record (%r...)" % (o, k[0], line[:30])
             i = int(name[1:name.index("x")])
